@@ -1,13 +1,15 @@
 PROPERTY = "C17"
 LEVEL = "proof"
-LEAN_MODULES = ["CifModel.Props.C17", "CifModel.Props.C17Store"]
+LEAN_MODULES = ["CifModel.Props.C17", "CifModel.Props.C17Map", "CifModel.Props.C17Store"]
 REQUIRED = ["CifModel.C17_dup_ustrings_balanced", "CifModel.C17_clone_balanced", "CifModel.C17_insert_balanced",
             "CifModel.C17_fault_reached_iff", "CifModel.C17_set_element_balanced", "CifModel.C17_get_names_balanced",
             "CifModel.C17_cex_get_names_leak", "CifModel.C17_clone_shape", "CifModel.C17_balanced_nodup",
             "CifModel.C17_copy_char_balanced", "CifModel.C17_packet_create_balanced",
             "CifModel.C17_cex_packet_create_undefined", "CifModel.C17_deserialize_balanced",
+            "CifModel.C17_map_set_balanced", "CifModel.C17_cex_map_set_corrupt", "CifModel.C17_map_remove_balanced",
+            "CifModel.C17_clone_table_balanced", "CifModel.C17_cex_clone_table_corrupt", "CifModel.C17_map_fault_reached_iff",
             "CifModel.C17_atomic_under_fault", "CifModel.C17_abs_unchanged", "CifModel.C17_close_fault_is_abort"]
-GEN = ["ErrCodes", "Schema"]
+GEN = ["ErrCodes", "Schema", "Uthash"]
 FAMILIES = ["ladder", "oom", "storefault"]
 TRUSTED_BASE = [
     "Lean 4.33.0 kernel; axioms propext / Quot.sound / Classical.choice only",
